@@ -7,7 +7,8 @@ TRUSTED = [
     "hand-written model coq/core/Orswot.v of OrSWotSet<N> (NodeVersions, try_update_max_stamp, insert/delete_with_source, "
     "will_apply, diff, purge_old_deletes, merge; BTreeMap/HashMap as std++ gmap), tied to orswot.rs by the differential "
     "executor hx-orswot",
-    "extraction: ExtrOcamlBasic only; OCaml driver ocaml/core/modelrun.ml (run_orswot)",
+    "extraction: ExtrOcamlBasic only; OCaml driver ocaml/core/modelrun.ml (run_orswot); a sample of the single-set cases of "
+    "every run is re-evaluated with vm_compute inside Coq (CrossCheck.v) and must reproduce the extracted model's outputs",
     "only public-API observables are compared: return values, will_apply, get, diff, purge_old_deletes' return, "
     "OrSWotSet::default().diff(&s) (entries and tombstones), will_apply probes on a fresh key (the cut-off)",
 ]
@@ -37,4 +38,8 @@ def run_orswot_check(ck, prop_file, mode, nontrivial, rule, assumptions, level="
                 ck.correspondence("hx-orswot", "orswot", "hx-crdt", extra_args=["--replay", f, "mode=" + mode],
                                   name="orswot-corpus", nontrivial=nontrivial)
         ck.correspondence("hx-orswot", "orswot", "hx-crdt", extra_args=["mode=" + mode], nontrivial=nontrivial)
+        if not ck.replay:
+            # the extracted model and the OCaml driver are not blindly trusted: a sample of the cases is
+            # re-evaluated by vm_compute inside Coq against the outputs the extracted model printed
+            V.crosscheck_orswot(ck, "orswot", 600 if ck.tier == "thorough" else 150)
     ck.finish(level=level, rule=rule, trusted_base=TRUSTED + list(extra_trusted), assumptions=assumptions)
